@@ -158,18 +158,24 @@ theorem ruleCost_le : ∀ (A : Op R) (f : Fn), deepRule f A = true →
       have := ruleCost_le A g h
       rw [Nat.mul_add]
       omega
-  | eye dt n, f, _ => by
-    rw [ruleCost]
-    refine leaf_case f _ _ (by rw [factorDense]) (by rw [linSize]) (by simp [arity]) ?_
-    split <;> simp
-  | scalar dt s n, f, _ => by
-    rw [ruleCost]
-    refine leaf_case f _ _ (by rw [factorDense]) (by rw [linSize]) (by simp [arity]) ?_
-    split <;> simp
-  | diag dt n d, f, _ => by
-    rw [ruleCost]
-    refine leaf_case f _ _ (by rw [factorDense]) (by rw [linSize]) (by simp [arity]) ?_
-    split <;> simp
+  | eye dt n, f, h => by
+    rw [deepRule] at h
+    rw [ruleCost, linSize]
+    split at h
+    · exact own_step _ _ _ 0 (ownCost_le f _ 1 _ (by simp [arity]) rfl)
+    · cases h
+  | scalar dt s n, f, h => by
+    rw [deepRule] at h
+    rw [ruleCost, linSize]
+    split at h
+    · exact own_step _ _ _ 0 (ownCost_le f _ 1 _ (by simp [arity]) rfl)
+    · cases h
+  | diag dt n d, f, h => by
+    rw [deepRule] at h
+    rw [ruleCost, linSize]
+    split at h
+    · exact own_step _ _ _ 0 (ownCost_le f _ 1 _ (by simp [arity]) rfl)
+    · cases h
   | dense dt r c a, f, _ => by
     rw [ruleCost]
     refine leaf_case f _ _ (by rw [factorDense]) (by rw [linSize]) (by simp [arity]) ?_
@@ -178,25 +184,27 @@ theorem ruleCost_le : ∀ (A : Op R) (f : Fn), deepRule f A = true →
     rw [ruleCost]
     refine leaf_case f _ _ (by rw [factorDense]) (by rw [linSize]) (by simp [arity]) ?_
     split <;> simp
-  | perm dt p, f, _ => by
-    rw [ruleCost]
-    refine leaf_case f _ _ (by rw [factorDense]) (by rw [linSize]) (by simp [arity]) ?_
-    split <;> simp
-  | sparse dt r c e, f, _ => by
-    rw [ruleCost]
-    exact leaf_case f _ _ (by rw [factorDense]) (by rw [linSize]) (by simp [arity]) (Or.inr rfl)
-  | tridiag dt n al be ga, f, _ => by
-    rw [ruleCost]
-    exact leaf_case f _ _ (by rw [factorDense]) (by rw [linSize]) (by simp [arity]) (Or.inr rfl)
+  | perm dt p, f, h => by
+    rw [deepRule] at h
+    rw [ruleCost, linSize]
+    split at h
+    · exact own_step _ _ _ 0 (ownCost_le f _ 1 _ (by simp [arity]) rfl)
+    · cases h
+  | sparse dt r c e, f, h => by
+    rw [deepRule] at h
+    cases h
+  | tridiag dt n al be ga, f, h => by
+    rw [deepRule] at h
+    cases h
   | sliced A s0 s1, f, h => by
     rw [deepRule] at h
     cases h
   | concat ax Ms, f, h => by
     rw [deepRule] at h
     cases h
-  | house dt n v beta, f, _ => by
-    rw [ruleCost]
-    exact leaf_case f _ _ (by rw [factorDense]) (by rw [linSize]) (by simp [arity]) (Or.inr rfl)
+  | house dt n v beta, f, h => by
+    rw [deepRule] at h
+    cases h
   | generic A, f, h => by
     rw [deepRule] at h
     cases h
